@@ -95,12 +95,29 @@ def run_bytes(spec):
         vs.append(V("bytes-concat", "content_from_reader", "bytes differ"))
     if spec["buffer_now"] and len(calls) != before:
         vs.append(V("lazy", "reader-buffer_now-reread", "buffered content re-read its source"))
+    if not spec["buffer_now"]:
+        # a lazy content yields what its source yields at that time: a changed source shows in the next pass
+        later = [b"later:"] + list(chunks)
+        src = [list(chunks)]
+        lazy = content_from_reader(lambda: iter(list(src[0])), _ct(spec["ct_a"]), False)
+        first = b"".join(lazy.iter_bytes())
+        src[0] = later
+        second = b"".join(lazy.iter_bytes())
+        if first != whole or second != b"".join(later):
+            vs.append(V("lazy", "stale-second-pass", "a lazy content gave %r and then %r; its source yielded %r and then %r" % (first, second, whole, b"".join(later))))
     # equality <=> type equal and bytes equal, whatever the chunking
     rechunked = _cut(whole, spec["cuts"])
     other_bytes = whole if spec["other"] is None else b"".join(spec["other"])
     other_chunks = rechunked if spec["other"] is None else spec["other"]
     d = Content(_ct(spec["ct_b"]), lambda: list(other_chunks))
     want = (spec["ct_a"] == spec["ct_b"]) and other_bytes == whole
+    class OwnContent(Content):
+        """A Content subclass (like TracebackContent): equality is still type and bytes."""
+    sub = OwnContent(_ct(spec["ct_b"]), lambda: list(other_chunks))
+    if (c == sub) != want or (sub == c) != want or (c != sub) == want:
+        vs.append(V("eq", "Content-subclass", "c==sub is %r, sub==c is %r, c!=sub is %r; model says equal=%r" % (c == sub, sub == c, c != sub, want)))
+    if (c != d) == want:
+        vs.append(V("eq", "Content.__ne__", "c!=d is %r although equal=%r" % (c != d, want)))
     if (c == d) != want or (d == c) != want:
         vs.append(V("eq", "Content.__eq__", "c==d is %r, model says %r (types %s/%s, bytes %r/%r)" % (
             c == d, want, spec["ct_a"], spec["ct_b"], whole, other_bytes)))
@@ -200,6 +217,8 @@ def run_decode(spec):
     cs, data = spec["charset"], spec["data"]
     params = {} if cs is None else {"charset": cs}
     chunks = _cut(data, spec["cuts"])
+    if not data and spec.get("abandon") in (None, 0) and len(spec["cuts"]) % 2:
+        chunks = []           # a content that yields no chunk at all (an empty file)
     c = Content(ContentType("text", "plain", params), lambda: list(chunks))
     eff = cs or "ISO-8859-1"
     try:
@@ -257,7 +276,8 @@ def s_interleaved(draw):
         except UnicodeError:
             datas.append("".join(ch for ch in t if ord(ch) < 0x80).encode(cs or "latin-1"))
     return {"charset": cs, "datas": datas, "cuts": [draw(st.lists(st.integers(0, 12), max_size=5)) for _ in range(2)],
-            "order": draw(st.lists(st.integers(0, 1), max_size=14))}
+            "order": draw(st.lists(st.integers(0, 1), max_size=14)),
+            "same_object": draw(st.sampled_from([False, False, True])), "shared_type": draw(st.booleans())}
 
 
 def run_interleaved(spec):
@@ -267,6 +287,13 @@ def run_interleaved(spec):
     cs = spec["charset"]
     params = {} if cs is None else {"charset": cs}
     contents = [Content(ContentType("text", "plain", dict(params)), lambda ch=_cut(d, c): list(ch)) for d, c in zip(spec["datas"], spec["cuts"])]
+    if spec.get("same_object"):
+        # two decodes of one and the same Content object in progress at once
+        contents[1] = contents[0]
+        spec = dict(spec, datas=[spec["datas"][0], spec["datas"][0]], cuts=[spec["cuts"][0], spec["cuts"][0]])
+    elif spec.get("shared_type"):
+        shared = ContentType("text", "plain", dict(params))
+        contents = [Content(shared, lambda ch=_cut(d, c): list(ch)) for d, c in zip(spec["datas"], spec["cuts"])]
     its = [c.iter_text() for c in contents]
     out = ["", ""]
     done = [False, False]
@@ -315,8 +342,10 @@ class LoggedStream(io.BytesIO):
 
 @st.composite
 def s_stream_case(draw):
-    data = draw(st.one_of(st.binary(max_size=40),
-                          st.integers(0, 6).flatmap(lambda k: st.binary(min_size=4 * k, max_size=4 * k))))
+    data = draw(st.one_of(st.binary(max_size=40), st.binary(max_size=40),
+                          st.integers(0, 6).flatmap(lambda k: st.binary(min_size=4 * k, max_size=4 * k)),
+                          # more than one chunk even at the default chunk size
+                          st.tuples(st.binary(min_size=1, max_size=8), st.sampled_from([4096, 4097, 8192, 10000])).map(lambda t: (t[0] * t[1])[:t[1]])))
     chunk_size = draw(st.sampled_from([1, 2, 3, 4, 5, 8, 4096]))
     kind = draw(st.sampled_from(["stream", "file"]))
     whence = draw(st.sampled_from([0, 2] if kind == "file" else [0, 1, 2]))
